@@ -151,7 +151,9 @@ func TestC03Init(t *testing.T) {
 		never := variant == 4                                     // never accepted, local finish in AwaitingAcceptance
 		only := -1
 		if variant == 5 {
-			only = c.Rng.Intn(3) // only one of the signals (0=FT,1=RC,2=RBF): must not complete
+			// only one of the two completion signals (0=FT,1=RC,2=RBF), or (3..5) a longer history that repeats
+			// and interleaves signals of ONE side only with the responder's paused Complete: must not complete
+			only = c.Rng.Intn(6)
 		}
 		type pl struct {
 			name string
@@ -169,6 +171,12 @@ func TestC03Init(t *testing.T) {
 			if c.Rng.Intn(2) == 0 {
 				sigs = []pl{RBF, FT}
 			}
+		case only >= 3:
+			sigs = gen.Pick(c.Rng, [][]pl{
+				{RC, RBF, RC}, {RC, RBF}, {RBF, RC}, {RC, RC}, {RBF, RBF, RC}, {RC, RBF, RBF, RC}, {RC, RBF, RC, RBF}, // the local finish never comes
+				{FT, RBF, FT}, {FT, FT}, {RBF, FT, RBF}, {FT, RBF}, {FT, RBF, RBF}, // the responder's final Complete never comes
+			})
+			c.Count("one_sided_histories", 1)
 		case never:
 			sigs = []pl{FT}
 		default:
